@@ -101,6 +101,15 @@ class World:
     def __init__(self, params=None):
         from bellows.ash import AshProtocol
 
+        if params and params.get("twin"):
+            # another link in the same process, left mid-operation (a frame accepted, half a frame buffered, discarding after a
+            # SUBSTITUTE byte): state that leaks between AshProtocol objects (class-level buffers / counters) would show below
+            rec0 = Recorder()
+            self.twin = AshProtocol(rec0)
+            self.twin.connection_made(FakeTransport(None))
+            self.twin.data_received(ref_ash.wire(ref_ash.enc_data(0, 0, 0, PAYLOAD + b"\x55")))
+            self.twin.data_received(ref_ash.wire(ref_ash.enc_data(1, 0, 0, PAYLOAD + b"\x56"))[:4])
+            self.twin.data_received(b"\x18\x42")
         self.rec = Recorder()
         self.proto = AshProtocol(self.rec)
         self.tr = FakeTransport(None)
@@ -173,7 +182,29 @@ def main(tier: str) -> int:
     def on_tr(src, label, dst):
         edges[(src, tuple(label))] = dst
 
-    g = explore.esbfs(World, {}, on_transition=on_tr, max_states=20000)
+    # --- the same short sequences next to a second, busy link in the same process (isolation between objects) ---
+    twin_runs = 0
+    for names in itertools.product(REDUCED, repeat=2):
+        w = World({"twin": True})
+        hist = []
+        for nm in names:
+            ev = reduced_event(nm, w.ref.expected)
+            w.feed(ev)
+            hist.append(ev)
+            if w.viol:
+                rep.add_violation(f"C04|twin|{ev[0]}|{w.viol[0].split(':', 1)[-1].strip()[:50]}", "with a second AshProtocol object alive in the process: " + w.viol[0],
+                                  {"world": "c04", "events": list(hist), "twin": True})
+                break
+        twin_runs += 1
+
+    if rep.violations:
+        # already refuted by the short sequences: do not attempt the closure (state leaking between objects also leaks between
+        # the replays of the search and makes the space infinite)
+        rep.coverage = {"states": 1, "transitions": twin_runs, "traces_validated_against_impl": twin_runs, "closed": False, "exhaustive": False,
+                        "twin_instance_sequences": twin_runs, "samples": [{"events": [list(reduced_event(n, 0)) for n in REDUCED[:3]]}]}
+        return rep.finish()
+
+    g = explore.esbfs(World, {}, on_transition=on_tr, max_states=20000, budget_s=600)
     for v, params, hist, label in g.violations:
         evs = [World.EVENTS[c] for c in hist]
         last = evs[-1] if evs else None
@@ -242,7 +273,8 @@ def main(tier: str) -> int:
     rep.coverage = {
         "states": g.states,
         "transitions": g.transitions,
-        "traces_validated_against_impl": g.transitions + seqs + long_runs,
+        "traces_validated_against_impl": g.transitions + seqs + long_runs + twin_runs,
+        "twin_instance_sequences": twin_runs,
         "closed": g.closed,
         "exhaustive": True,
         "alphabet_size": len(World.EVENTS),
@@ -262,7 +294,7 @@ def main(tier: str) -> int:
 
 
 def replay(data) -> int:
-    w = World()
+    w = World({"twin": True} if data.get("twin") else None)
     bad = 0
     for ev in data["events"]:
         ups, wr = w.feed(tuple(ev))
